@@ -364,6 +364,9 @@ def b_tuple(it, args, kw):
 def b_set(it, args, kw):
     if not args:
         return set()
+    if isinstance(args[0], SymSeq):
+        s = args[0]
+        return SymSeq(s.name + "'", s.n, s.maker, "set")  # membership is all that is observable of a set built from a sequence
     items = _listify(it, args[0])
     try:
         return set(items)
